@@ -20,5 +20,5 @@ json.dump({"property": prop, "change": title, "needs_to_manifest": need, "base_c
            "ran": ["tools/seedeval.sh %s %s %s (demo on clean worktree: exit 0; demo on patched worktree: exit 1; ./check %s against the patched worktree)" % (prop, src, name, prop)],
            "check_output": [l for l in ev.split("\n") if re.search(r"VIOLATION|PASS|FAIL|broken:", l)][:12],
            "existing_tests": "see tests.json written by tools/seed_tests.sh (full baseline suite on a patched worktree); the sub-agent's own suite run is quoted in notes.md",
-           "detected_by": det, "source": "fresh sub-agent (round 2) given only the property text and a scratch worktree"}, open(d + "/meta.json", "w"), indent=1)
+           "detected_by": det, "source": "fresh sub-agent (round 2/3) given only the property text and a scratch worktree"}, open(d + "/meta.json", "w"), indent=1)
 print(d)
